@@ -93,6 +93,8 @@ enum Part {
     Begin(usize),
     End,
     Kept(&'static str),
+    /// a compilation-unit item written in SystemVerilog syntax (only generated where an 1800-* set is in force)
+    Item(String),
     Module { names: Vec<String> }, // [module, port_a, port_b, wire, reg, inst]
 }
 
@@ -120,6 +122,10 @@ fn render(parts: &[Part]) -> String {
                 s.push_str(k);
                 s.push('\n');
             }
+            Part::Item(k) => {
+                s.push_str(k);
+                s.push('\n');
+            }
             Part::Module { names } => s.push_str(&render_module(names)),
         }
     }
@@ -144,7 +150,7 @@ fn gen_regions(t: &mut Tape) -> Gen13 {
     let mut stack: Vec<usize> = Vec::new();
     let n = 2 + t.below(7);
     for _ in 0..n {
-        match t.weighted(&[5, 3, 2, 2]) {
+        match t.weighted(&[5, 3, 2, 2, 2]) {
             0 => {
                 // module under the version in force
                 let v = stack.last().copied().unwrap_or(7);
@@ -178,6 +184,26 @@ fn gen_regions(t: &mut Tape) -> Gen13 {
                     g.parts.push(Part::End);
                 }
             }
+            4 => {
+                // compilation-unit items between design elements; their words are reserved from 1800-2005 on.
+                // A lone timeunit / timeprecision is tried as the two-declaration form first, so the white space
+                // behind it (which may hold the next `begin_keywords / `end_keywords) is parsed more than once.
+                let v = stack.last().copied().unwrap_or(7);
+                if v >= 4 {
+                    g.counter += 1;
+                    let k = g.counter;
+                    let item = match t.below(8) {
+                        0 | 1 => "timeunit 1ns;".to_string(),
+                        2 => "timeprecision 1ps;".to_string(),
+                        3 => "timeunit 1ns;\ntimeprecision 1ps;".to_string(),
+                        4 => format!("parameter int cu_p{} = {};", k, k),
+                        5 => format!("typedef logic [3:0] cu_t{};", k),
+                        6 => format!("function automatic int cu_f{}(input int a); return a; endfunction", k),
+                        _ => format!("import cu_pkg{}::*;", k),
+                    };
+                    g.parts.push(Part::Item(item));
+                }
+            }
             _ => {
                 let k = *t.pick(&["`timescale 1ns/1ps", "`celldefine", "`endcelldefine", "`default_nettype wire", "`resetall", "`nounconnected_drive", "`line 5 \"x.v\" 0", "// comment", "`define KW_M 1", "`undef KW_M"]);
                 g.parts.push(Part::Kept(k));
@@ -188,6 +214,62 @@ fn gen_regions(t: &mut Tape) -> Gen13 {
         g.parts.push(Part::End);
     }
     g
+}
+
+/// Dense mix of `begin_keywords / `end_keywords (balanced or not), compilation-unit items and one-line modules, small
+/// enough for the smallest memo capacities of C17. Validity is not aimed at: half of the net names are words that some
+/// older set does not reserve, whatever set is in force, so acceptance hinges on the regions - and must not hinge on how
+/// often the white space holding a directive was evaluated.
+pub fn gen_regions_compact_text(t: &mut Tape) -> String {
+    let mut s = String::new();
+    let mut opened: Vec<usize> = Vec::new();
+    let n = 3 + t.below(5);
+    let mut after_item = false;
+    for k in 0..n {
+        // the white space behind a lone timeunit / a non-ANSI header is where directives get evaluated twice
+        let w: [usize; 5] = if after_item { [6, 5, 1, 2, 1] } else { [4, 3, 4, 5, 1] };
+        let choice = t.weighted(&w);
+        after_item = choice == 2;
+        match choice {
+            0 => {
+                let v = t.below(8);
+                opened.push(v);
+                s.push_str(&format!("`begin_keywords \"{}\"\n", VERSIONS[v].0))
+            }
+            1 => s.push_str("`end_keywords\n"),
+            2 => {
+                let item = match t.below(6) {
+                    0 | 1 | 2 | 3 => "timeunit 1ns;".to_string(),
+                    4 => "timeprecision 1ps;".to_string(),
+                    _ => format!("parameter cu_p{} = {};", k, k),
+                };
+                s.push_str(&item);
+                s.push('\n');
+            }
+            3 => {
+                // two nets in three are named by a word that a set opened earlier does not reserve (any older set if none was)
+                let net = if t.chance(2, 3) {
+                    let v = if opened.is_empty() { t.below(6) } else { opened[t.below(opened.len())] };
+                    let c = later_only(v.min(5));
+                    t.pick(&c).to_string()
+                } else {
+                    format!("w{}", k)
+                };
+                if t.chance(1, 4) {
+                    // non-ANSI header: the ANSI form is tried first and re-parsed
+                    s.push_str(&format!("module m{} (a);\ninput a; wire {};\nendmodule\n", k, net));
+                } else {
+                    s.push_str(&format!("module m{}; wire {}; endmodule\n", k, net));
+                }
+            }
+            _ => {
+                let kept = *t.pick(&["`celldefine", "`resetall", "// c", "`default_nettype wire"]);
+                s.push_str(kept);
+                s.push('\n');
+            }
+        }
+    }
+    s
 }
 
 /// Text of a generated keyword-region program (also used by C17).
